@@ -189,6 +189,58 @@ def pipeline(case):
     return "single" if len(ps) == 1 else "multi"
 
 
+DEFAULT_PARSERS = ["timestamp", "relative-time", "custom-formats", "absolute-time"]
+
+
+def explain_fallback(dateparser, case, clock_us, base, strict, strict_value):
+    """Is the value a multi-reading pipeline returned under strictness exactly what ONE of its
+    single readings (one parser, the locale that answered) returns under the same strictness?
+    Then the mechanism is the known one: strictness rejected the first reading and the pipeline
+    went on to the next parser / locale.  Returns (parser, locale) or None."""
+    from dateparser.date import DateDataParser
+
+    clk = world.clock()
+    settings = dict(case["extra"])
+    if base is not None:
+        settings["RELATIVE_BASE"] = base
+    settings.update(strict)
+    try:
+        clk.set(clock_us, ["frozen"])
+        kw = {"languages": [case["lang"]]} if case["lang"] else {}
+        dd = DateDataParser(settings=dict(settings), **kw).get_date_data(case["string"], list(case["formats"]) if case["formats"] else None)
+        loc = dd.locale
+    except Exception:  # noqa
+        return None
+    cands = [l for l in [loc, case["lang"]] if l]
+    parsers = list(case["extra"].get("PARSERS") or DEFAULT_PARSERS)
+    for L in cands or [None]:
+        for pz in parsers:
+            st = dict(settings, PARSERS=[pz])
+            kw = {"languages": [L.split("-")[0]] if L and "-" in L and L.split("-")[0] else ([L] if L else None)}
+            try:
+                clk.set(clock_us, ["frozen"])
+                args = {"settings": st}
+                if L:
+                    args["locales" if "-" in L else "languages"] = [L]
+                if case["formats"] and pz == "custom-formats":
+                    args["date_formats"] = list(case["formats"])
+                r = dateparser.parse(case["string"], **args)
+            except Exception:  # noqa
+                continue
+            if r is not None and r == strict_value:
+                return (pz, L)
+    if case["formats"]:
+        # the raw-string attempt made before any language work
+        try:
+            clk.set(clock_us, ["frozen"])
+            r = dateparser.parse(case["string"], date_formats=list(case["formats"]), languages=["en"], settings=dict(settings, PARSERS=["custom-formats"]))
+            if r is not None and r == strict_value:
+                return ("custom-formats(raw)", None)
+        except Exception:  # noqa
+            pass
+    return None
+
+
 def _call(dateparser, case, clock_us, base, strict):
     clk = world.clock()
     clk.set(clock_us, ["frozen"])
@@ -254,7 +306,10 @@ def eval_case(case):
                     problems.append(("R1-strict-raises", name, "world %s: strict raised %s, non-strict returned %r" % (k, v[1], p[1])))
             elif v[1] is not None:
                 if p[0] != "ok" or p[1] != v[1] or (p[1] is not None and p[1].tzinfo != v[1].tzinfo):
-                    problems.append(("R1-strict-changes-value", name, "world %s: strict %r vs non-strict %r" % (k, v[1], p[1])))
+                    expl = None
+                    if pipeline(case) == "multi":
+                        expl = explain_fallback(dateparser, case, clocks[k[0]], bases[k[1]], strict, v[1])
+                    problems.append(("R1-strict-changes-value", name, "world %s: strict %r vs non-strict %r%s" % (k, v[1], p[1], "; the strict value is what the single reading %s yields" % (expl,) if expl else ""), expl))
         oks = [v[1] for v in res.values() if v[0] == "ok"]
         nonnull = [v for v in oks if v is not None]
         if nonnull:
@@ -282,6 +337,8 @@ def eval_case(case):
     p = problems[0]
     used_fmt = bool(case["formats"])
     sig = {"relation": p[0], "setting": p[1].split(":")[0], "custom_formats_given": used_fmt, "kind": case["kind"], "pipeline": pipeline(case)}
+    if p[0] == "R1-strict-changes-value" and pipeline(case) == "multi":
+        sig["explained_by_single_reading"] = bool(len(p) > 3 and p[3])
     detail = "%s [%s] parse(%r, date_formats=%r, languages=%r, settings=%r + strict): %s" % (p[0], p[1], case["string"], case["formats"], case["lang"], case["extra"], p[2])
     return {"ok": False, "key": key, "sig": sig, "detail": detail, "stats": stats, "reads": reads, "outcome": out_log, "expected": "relations R1-R3"}
 
